@@ -622,10 +622,130 @@ RULE_ENC = ("arrays given as segment lists: run lengths and array lengths on bot
             "ascending, descending and scattered order (thorough: 2^20 and 2^20+1), shared dictionaries with and "
             "without missing values, random small-alphabet arrays; non-trivial = count >= 1")
 
+# ---------------------------------------------------------------- the regenerated RLE decoders (gen/c2coq.py)
+# src_rle_* cases run the real C on one side and, on the model side, the Gallina functions that gen/c2coq.py
+# regenerated from the current src/varintRLE.c (coq/gen/Src_rle.v; they call the regenerated tagged functions of
+# Src_tagged.v): a test of the translator, on admissible inputs and small arrays only.
+
+def generate_src_rle(rng, tier):
+    k = 40 if tier == "quick" else 400
+    fixed = [[U64], [0], [1, 1, 2, 2, 2, 3, 4, 4], [7] * 300, [240] * 241 + [241] * 5, [U64, U64, 0, 0, 1 << 63]]
+    for vals in fixed + list(_small_arrays(rng, k)):
+        b, bh = rle_bytes(vals, False), rle_bytes(vals, True)
+        n = len(vals)
+        caps = list(range(0, n + 1)) if n <= 12 else sorted(set([0, 1, n // 2, n - 1, n]))
+        for cap in caps:
+            yield "src_rle_dec %s %d 0" % (hexs(b), cap)
+        for cap in caps + [n + 1, n + 7]:
+            yield "src_rle_dec %s %d 1" % (hexs(bh), cap)
+        for i in sorted(set([0, n // 2, n - 1])):
+            yield "src_rle_at %s %d" % (hexs(b), i)
+        yield "src_rle_count %s" % hexs(bh)
+        yield "src_rle_run %s" % hexs(b)
+        if n <= 320:
+            for hdr in (0, 1):
+                need = len(bh if hdr else b)
+                for wm in (0, 1):
+                    L = need if rng.random() < 0.5 else need + rng.randint(0, 5)
+                    yield "src_rle_enc %s %d %d %s" % (lst(vals), hdr, wm, hexs([rng.randrange(256) for _ in range(L)]))
+            yield "src_rle_size %s" % lst(vals)
+        for m in range(0, min(len(b), 40) + 1):
+            yield "src_rle_rc %s" % hexs(b[:m])
+    for ln in range(0, 24):
+        for _ in range(4 if tier == "quick" else 40):
+            yield "src_rle_rc %s" % hexs([rng.randrange(256) if rng.random() < 0.7 else rng.choice([0, 1, 255, 249, 241]) for _ in range(ln)])
+
+
+def _unrle(bs, hdr):
+    """values of a valid encoding built by rle_bytes"""
+    def tget(i):
+        a = bs[i]
+        n = 1 if a <= 240 else 2 if a <= 248 else a - 246
+        if n == 1:
+            return a, i + 1
+        if n == 2:
+            return 240 + 256 * (a - 241) + bs[i + 1], i + 2
+        if n == 3:
+            return 2288 + 256 * bs[i + 1] + bs[i + 2], i + 3
+        return int.from_bytes(bytes(bs[i + 1:i + n]), "big"), i + n
+    i, out = 0, []
+    if hdr:
+        _, i = tget(0)
+    while i < len(bs):
+        l, i = tget(i)
+        v, i = tget(i)
+        out += [v] * l
+    return out
+
+
+def o_src_rle_dec(args, c):
+    bs, cap, hdr = list(bytes.fromhex(args[0][1:])), int(args[1]), int(args[2])
+    if "fault" in c:
+        return "fault=%s (read beyond the encoding)" % c["fault"]
+    if c.get("vals") == "overrun":
+        return "decoder wrote outside the %d elements of the output array" % cap
+    vals = _unrle(bs, hdr)
+    want = min(cap, len(vals)) if not hdr else (len(vals) if len(vals) <= cap else 0)
+    got = [int(x) for x in c["vals"][1:].split(",")] if len(c["vals"]) > 1 else []
+    if int(c["ret"]) != want or got[:want] != vals[:want] or any(x != 7777 for x in got[want:]):
+        return "decoded %s elements %s, expected %d elements of %s then untouched cells" % (c["ret"], c["vals"][:80], want, vals[:8])
+    return None
+
+
+def o_src_rle_at(args, c):
+    bs, i = list(bytes.fromhex(args[0][1:])), int(args[1])
+    if "fault" in c:
+        return "fault=" + c["fault"]
+    vals = _unrle(bs, 0)
+    return None if int(c["ret"]) == vals[i] else "element %d is %d, got %s" % (i, vals[i], c["ret"])
+
+
+def o_src_rle_any(args, c):
+    return ("fault=" + c["fault"]) if "fault" in c else None
+
+
+def o_src_rle_enc(args, c):
+    vals = [int(x) for x in args[0][1:].split(",")] if len(args[0]) > 1 else []
+    hdr, buf = int(args[1]), list(bytes.fromhex(args[3][1:]))
+    if "fault" in c:
+        return "fault=%s (access outside the exact-size destination)" % c["fault"]
+    if c.get("buf") in ("lo", "hi"):
+        return "write outside the destination (%s)" % c["buf"]
+    enc, out = rle_bytes(vals, bool(hdr)), list(bytes.fromhex(c["buf"][1:]))
+    if int(c["ret"]) != len(enc) or out[:len(enc)] != enc or out[len(enc):] != buf[len(enc):]:
+        return "wrote %s (returned %s), expected %s then the old bytes" % (c["buf"][:60], c["ret"], hexs(enc)[:60])
+    return None
+
+
+SRC_RLE_ORACLES = {"src_rle_enc": o_src_rle_enc, "src_rle_size": o_src_rle_any, "src_rle_dec": o_src_rle_dec, "src_rle_at": o_src_rle_at, "src_rle_count": o_src_rle_any,
+                   "src_rle_run": o_src_rle_any, "src_rle_rc": o_src_rle_any}
+SRC_RLE_TRUSTED = ["gen/c2coq.py (C-to-Gallina translator: clang 14 typed AST -> coq/gen/Src_rle.v, calling coq/gen/Src_tagged.v) "
+                   "and coq/theories/CSem.v; validated per run only by executing the generated functions against the C "
+                   "(src_rle_* cases, small arrays)"]
+
+
+def _with_src(gen, only=None):
+    def g(rng, tier):
+        yield from gen(rng, tier)
+        for c in generate_src_rle(random.Random(rng.getrandbits(48)), tier):
+            if only is None or c.split(" ", 1)[0] in only:
+                yield c
+    return g
+
+
+def _classify_src(case, m):
+    api = case.split(" ", 1)[0]
+    if api.startswith("src_rle_"):
+        return "%s-ret%s" % (api, m.get("ret"))
+    return classify(case, m)
+
+
 PARTS = {
-    "C02": dict(coq_props=["Properties_C02_rledict"], files=FILES, rule=RULE_ENC, generate=generate_C02,
-                oracles={"rle_enc": o_rle_enc_C02, "dict_enc": o_dict_enc_C02, "dict_with": o_dict_with_C02},
-                classify=classify, search=search, assumptions=ASSUME, trusted_base=TRUST,
+    "C02": dict(coq_props=["Properties_C02_rledict"], files=FILES, rule=RULE_ENC,
+                generate=_with_src(generate_C02, ("src_rle_enc", "src_rle_size", "src_rle_dec")),
+                oracles=dict({"rle_enc": o_rle_enc_C02, "dict_enc": o_dict_enc_C02, "dict_with": o_dict_with_C02},
+                             **SRC_RLE_ORACLES),
+                classify=_classify_src, search=search, assumptions=ASSUME, trusted_base=TRUST + SRC_RLE_TRUSTED,
                 configs_quick=["pinned", "O0"]),
     "C03": dict(coq_props=["Properties_C03_rledict"], files=FILES, rule=RULE_ENC, generate=generate_enc,
                 oracles={"rle_enc": o_rle_enc_C03, "dict_enc": o_dict_enc_C03, "dict_with": o_dict_with_C03},
@@ -635,17 +755,19 @@ PARTS = {
                 rule="valid encodings of the C02 arrays x capacities 0..count (all capacities for short arrays; 0, 1, "
                      "run boundaries +-1, count-1, count for long ones), output array of exactly cap elements inside "
                      "canaries; hostile run streams with lengths near 2^64 for varintRLEDecode; non-trivial = count >= 1",
-                generate=generate_C13, oracles={"rle_cap": o_rle_cap, "dict_cap": o_dict_cap, "rle_hostile": o_rle_hostile,
-                                                        "rle_hostile_hdr": o_rle_hostile_hdr},
-                classify=classify, search=search, assumptions=ASSUME, trusted_base=TRUST,
+                generate=_with_src(generate_C13, ("src_rle_dec", "src_rle_at", "src_rle_run", "src_rle_count")),
+                oracles=dict({"rle_cap": o_rle_cap, "dict_cap": o_dict_cap, "rle_hostile": o_rle_hostile,
+                              "rle_hostile_hdr": o_rle_hostile_hdr}, **SRC_RLE_ORACLES),
+                classify=_classify_src, search=search, assumptions=ASSUME, trusted_base=TRUST + SRC_RLE_TRUSTED,
                 configs_quick=["pinned", "O0"]),
     "C14": dict(coq_props=["Properties_C14_rledict"], files=FILES,
                 rule="exact-size guard-paged inputs: every truncation of valid RLE / dictionary encodings, single-byte "
                      "mutations, crafted headers (dictionary size above the limit, counts whose product with the index "
                      "width wraps, out-of-range indices, zero-length runs), random bytes of length 0..200; "
                      "non-trivial = non-empty input",
-                generate=generate_C14, oracles={"rle_rc": o_rle_rc, "dict_dec": o_dict_dec},
-                classify=classify, search=search, assumptions=ASSUME[:1], trusted_base=TRUST,
+                generate=_with_src(generate_C14, ("src_rle_rc",)),
+                oracles=dict({"rle_rc": o_rle_rc, "dict_dec": o_dict_dec}, **SRC_RLE_ORACLES),
+                classify=_classify_src, search=search, assumptions=ASSUME[:1], trusted_base=TRUST + SRC_RLE_TRUSTED,
                 configs_quick=["pinned", "O0"]),
     "C16": dict(coq_props=["Properties_C16_rledict"], files=FILES, rule=RULE_ENC, generate=generate_C16,
                 oracles={"rle_enc": o_rle_enc_C16}, classify=classify, search=search,
